@@ -198,8 +198,12 @@ def main_check(prop_id, tier, seed):
         pl = per_leg.setdefault(key, collections.Counter())
         for k, v in c.items():
             if isinstance(v, (int, float)):
-                merged[k] += v
-                pl[k] += v
+                if k.startswith("max_"):
+                    merged[k] = max(merged[k], v)
+                    pl[k] = max(pl[k], v)
+                else:
+                    merged[k] += v
+                    pl[k] += v
         if not res.get("exhaustive", True):
             exhaustive = False
         if len(samples) < 6 and res.get("samples"):
